@@ -1580,7 +1580,7 @@ pub fn gen_bitflip(tier: Tier) -> Gen {
     }
     let n_instr: u64 = tier.pick(6, 9);
     // (cpu, instruction kinds, permission rotations)
-    let blocks: Vec<(CpuK, u64, u64)> = vec![(CpuK::Amd64, n_instr, 7), (CpuK::Ppc64, 1, 7), (CpuK::Mips64, 1, 7), (CpuK::Arm64, 1, 1), (CpuK::Arm64Old, 1, 1), (CpuK::X86, 1, 1), (CpuK::Arm, 1, 1)];
+    let blocks: Vec<(CpuK, u64, u64)> = vec![(CpuK::Amd64, n_instr, 7), (CpuK::Ppc64, 1, 7), (CpuK::Mips64, 1, 7), (CpuK::Arm64, 1, 1), (CpuK::Arm64Old, 1, 1), (CpuK::X86, 1, 1), (CpuK::Arm, 1, 1), (CpuK::Mips, 1, 1), (CpuK::Sparc, 1, 1), (CpuK::Ppc, 1, 1)];
     let na = addrs.len() as u64;
     let ns = sets.len() as u64;
     let sizes: Vec<u64> = blocks.iter().map(|b| na * ns * b.2 * 2 * 8 * b.1).collect();
